@@ -483,6 +483,12 @@ def _valid(rng, cls=None, small=False):
     present, nm = _names(rng, spec["cls"], vol, R, C)
     if present:
         spec["names"] = nm
+        if isinstance(nm, dict) and spec["cls"] == "Labware" and spec.get("virtual_rows") is None and R > 1 and rng.random() < 0.25:
+            named = [k for k, v in nm.items() if v is not None]
+            unnamed = [wid(r, c) for r in range(R) for c in range(C) if vol[r][c] > 0 and nm.get(wid(r, c)) is None]
+            if named and unnamed:
+                # "plate.B01" given for A01 while B01 has no name of its own: two wells of one component
+                nm[rng.choice(named)] = f"{spec.get('name', 'lw')}.{rng.choice(unnamed)}"
     return spec, vol, (R, C, V)
 
 
@@ -858,6 +864,20 @@ def run_case(ctx, case):
             n_ in comp and np.shape(comp[n_]) == (R, C) and comp[n_][r, c] == 1.0 for (r, c), n_ in exp["names"].items()
         )
         ctx.check("given_names_used_verbatim", okn, det)
+    if (R * 7 + C) % 4 == 0:
+        # this labware is not needed any more: the caller re-uses what it exposes (aliases added to the index map,
+        # retired wells deleted, the ID array blanked) - labware constructed later must not notice
+        try:
+            for dct in (lw.indices, getattr(lw, "positions", None)):
+                if isinstance(dct, dict) and dct:
+                    k0 = next(iter(dct))
+                    dct["A1"] = dct[k0]
+                    del dct[k0]
+            if isinstance(lw.wells, np.ndarray) and lw.wells.size and lw.wells.flags.writeable:
+                lw.wells[...] = "ZZ9"
+            ctx.count("discarded_labware_overwritten")
+        except Exception:
+            pass
 
 
 # ---------------------------------------------------------------------------------------------
